@@ -395,6 +395,9 @@ def build_cpp(name, srcs, flags=None, libs=None, mpi=False, shim=False, sanitize
     if shim:
         inc.append("-I" + os.path.join(ROOT, "harness", "shim"))
     inc += ["-I" + os.path.join(REPO, "include"), "-I" + os.path.join(ROOT, "harness")]
+    xdef = os.environ.get("VERIF_EXTRA_DEFINES", "").split()          # replay of a violation found in a non-default build configuration
+    if xdef and not defines:
+        defines = xdef; name = name + "_" + "_".join(d.lower() for d in xdef)
     base = ["-std=c++14", "-O1", "-g", "-D" + GUARD] + ["-D" + d for d in (defines or [])]
     if mpi:
         base.append("-DVERIF_WITH_MPI")
@@ -433,6 +436,46 @@ def build_many(specs):
         for f in cf.as_completed(futs):
             out[futs[f]] = f.result()
     return out
+
+
+# --------------------------------------------------------------------------------------
+# supported build configurations
+# --------------------------------------------------------------------------------------
+CONFIG_VARIANTS = (("logging", ["VERIF_LOGGING"], "PARMCB_LOGGING=ON"), ("noinv", ["VERIF_NO_INVARIANTS_CHECK"], "PARMCB_INVARIANTS_CHECK=OFF"))
+
+
+def config_differential(c, name, srcs, cases, io, judge=None, canon=None, libs=None, shim=False, limit=3000, component=None, judge_all=False):
+    """The project supports the CMake options PARMCB_LOGGING (default OFF) and PARMCB_INVARIANTS_CHECK (default ON).  Rebuild the harness in
+    the two non-default configurations, run (a sample of) the same cases and require the same answers as in the default configuration
+    (`canon` maps an answer to what must agree; default: the whole line).  A different answer is judged against the property text with `judge`
+    (case, answer) -> reason | None: failing input found, or correspondence-only."""
+    if os.environ.get("VERIF_SANITIZE"):      # C07's sanitizer re-run: the default configuration only
+        return
+    canon = canon or (lambda x: x)
+    idx = list(range(len(cases)))
+    if len(idx) > limit:
+        idx = sorted(c.rng.sample(idx, limit))
+    stat = c.extra.setdefault("build_configurations", {})
+    for tag, defs, descr in CONFIG_VARIANTS:
+        exe, err = build_cpp(name="%s_%s" % (name, tag), srcs=srcs, libs=libs, shim=shim, defines=defs)
+        if exe is None:
+            c.violation("harness %s does not compile against the working tree in the supported configuration %s" % (name, descr),
+                        {"theorem_or_correspondence": "build of harness %s with %s" % (name, descr), "log": (err or "")[-1500:], "kind": "impl-build"}, False)
+            continue
+        out = run_lines([exe], [cases[i] for i in idx])
+        nbad = 0
+        for i, o in zip(idx, out):
+            if canon(o) == canon(io[i]) and not (judge_all and judge and judge(cases[i], o)): continue
+            nbad += 1
+            if nbad > 2: continue
+            why = judge(cases[i], o) if judge else None
+            rep = {"component": component or name, "case": cases[i], "impl": o, "impl_default_configuration": io[i], "configuration": descr, "defines": defs}
+            if why:
+                c.violation("%s (build configuration %s)" % (why, descr), rep, True)
+            else:
+                rep["theorem_or_correspondence"] = "same answers of harness %s in the default configuration and with %s" % (name, descr)
+                c.violation("the answer changes with the supported build configuration %s (default configuration: %s | %s: %s)" % (descr, io[i][:120], descr, o[:120]), rep, False)
+        stat["%s/%s" % (name, tag)] = {"cases": len(idx), "different": nbad}
 
 
 # --------------------------------------------------------------------------------------
